@@ -11,6 +11,10 @@
      - stage 1: [parse_number] returns the first 19 significant digits, the truncation flag and the
        saturated exact exponent, for every valid input and both build modes ([parse_number_exact]),
        and the exact value is w*10^q resp. lies in [w,w+1)*10^q ([parse_number_value_bracket]);
+     - END TO END for the fast-path class ([parse_float_fast_correct], no premise beyond the input
+       domain): every valid input with at most 19 significant digits whose Number satisfies
+       [fast_path_applies] is parsed to exactly RN (dec_value ...) in all eight configurations and both
+       build modes; and the complete functional description of the fast path ([try_fast_path_eq]);
      - no unchecked access on any input ([parse_float_float_or_panic]).
     See props/C11.v (extended-precision stage), props/C12.v (big integers), props/C18.v (final
     rounding) for the other stages; what is not proved is attacked by the directed search of the
@@ -20,7 +24,7 @@ From Coq Require Import ZArith QArith List Bool Reals.
 From Coq Require Import Floats.SpecFloat.
 From Flocq Require Import Core.Core.
 From ML Require Import base.RustSem model.Fmt model.FloatOps model.Number model.Parse model.Top spec.Decimal spec.Round spec.RoundFacts
-  gen.Consts gen.Tables gen.BTables gen.PowDump proofs.ParseFacts proofs.Glue proofs.NoUB.
+  gen.Consts gen.Tables gen.BTables gen.PowDump proofs.ParseFacts proofs.Glue proofs.NoUB proofs.FastPathFacts proofs.EndToEnd.
 Import ListNotations.
 
 Open Scope Z_scope.
@@ -86,6 +90,29 @@ Theorem C02_parse_number_value_bracket :
             (inject_Z (nmant n) * pow10Q (X + k) <= dec_value i f e < inject_Z (nmant n + 1) * pow10Q (X + k))%Q).
 Proof. exact parse_number_value_bracket. Qed.
 
+Theorem C02_try_fast_path_eq :
+  forall (c : config) (T : tables) (f : format) (b : build),
+         fast_ok c T f = true ->
+         forall n : number,
+         0 <= nmant n < 2 ^ 64 ->
+         - 2 ^ 31 <= nexp n < 2 ^ 31 ->
+         try_fast_path c T f b n =
+         Ok (if fast_path_applies f n then Some (RN f (inject_Z (nmant n) * pow10Q (nexp n))) else None).
+Proof. exact try_fast_path_eq. Qed.
+
+Theorem C02_fast_ok_all :
+  forallb (fun c : config => fast_ok c TABLES F32 && fast_ok c TABLES F64) ALL_CONFIGS = true.
+Proof. exact fast_ok_all. Qed.
+
+Theorem C02_parse_float_fast_correct :
+  forall (c : config) (f : format) (b : build) (BT : btables) (L : limits) (i fr : list Z) (e : Z),
+         In c ALL_CONFIGS ->
+         f = F32 \/ f = F64 ->
+         valid_inputb i fr e = true ->
+         fast_path_applies f (parse_spec i fr e) = true ->
+         parse_float c TABLES BT L f b i fr e = Ok (RN f (dec_value i fr e)).
+Proof. exact parse_float_fast_correct. Qed.
+
 Theorem C02_parse_float_float_or_panic :
   forall (c : config) (T : tables) (BT : btables) (L : limits) (f : format) 
            (b : build) (i fr : list Z) (e : Z),
@@ -104,4 +131,7 @@ Print Assumptions C02_RN_Qeq.
 Print Assumptions C02_RN_monotone.
 Print Assumptions C02_parse_number_exact.
 Print Assumptions C02_parse_number_value_bracket.
+Print Assumptions C02_try_fast_path_eq.
+Print Assumptions C02_fast_ok_all.
+Print Assumptions C02_parse_float_fast_correct.
 Print Assumptions C02_parse_float_float_or_panic.
